@@ -2,6 +2,7 @@ package cluster
 
 import (
 	"fmt"
+	myraft "github.com/feichai0017/NoKV/raft"
 	"math"
 	"math/rand"
 	"os"
@@ -84,6 +85,9 @@ type Trace struct {
 	Restarts  int                      `json:"restarts"`
 	WallMs    int64                    `json:"wall_ms"`
 	StallHits int                      `json:"stall_hits"`
+	// Probes: outcome quadruples (write at old leader / read at new leader / write at new
+	// leader / read at cut-off old leader) of the executed stale-read probes.
+	Probes []string `json:"probes,omitempty"`
 }
 
 // FlavorOf assigns the targeted "dup-transfer" pattern to every fifth case.
@@ -132,7 +136,12 @@ func GenPlan(rng *rand.Rand, thorough bool, flavor string) Plan {
 		p.WritePct = 50
 		at := 3 + rng.Intn(4)
 		for at < total-6 {
-			p.Steps = append(p.Steps, Step{AfterOps: at, Action: "partition-leader", Region: rng.Intn(p.Regions)})
+			// two partitions in three carry the probe (see the "stale-read-probe" action)
+			act := "stale-read-probe"
+			if rng.Intn(3) == 0 {
+				act = "partition-leader"
+			}
+			p.Steps = append(p.Steps, Step{AfterOps: at, Action: act, Region: rng.Intn(p.Regions), Store: rng.Intn(p.KeysPerReg)})
 			at += 10 + rng.Intn(10)
 			p.Steps = append(p.Steps, Step{AfterOps: at, Action: "heal"})
 			at += 3 + rng.Intn(5)
@@ -422,6 +431,7 @@ func Run(plan Plan, dir string, rng *rand.Rand, caughtUpWatchdog time.Duration) 
 		defer close(ctlDone)
 		frng := rand.New(rand.NewSource(rng.Int63()))
 		_ = frng
+		probeN := 0
 		for _, s := range plan.Steps {
 			stallAt := time.Now().Add(4 * time.Second)
 			stalled := false
@@ -452,6 +462,80 @@ func Run(plan Plan, dir string, rng *rand.Rand, caughtUpWatchdog time.Duration) 
 				} else {
 					ev.Note = "no leader"
 				}
+			case "stale-read-probe":
+				// A probing client of its own: write at the leader and cut the leader off
+				// the moment the write is acknowledged (the followers hold the entry but
+				// have not been told it is committed); as soon as another store claims
+				// leadership read the key there (a fresh leader still draining its
+				// backlog), write through it, and read at the cut-off old leader (which
+				// may not have noticed yet). Every call is an ordinary history operation.
+				l, _, ok := cl.Leader(reg)
+				if !ok {
+					ev.Note = "no leader"
+					break
+				}
+				key := keyOf(reg, s.Store%plan.KeysPerReg)
+				probeN++
+				pc := plan.Clients // client id of the probe
+				write := func(store int, tag string) Op {
+					op := Op{Client: pc, Kind: "write", Region: reg, Key: key, Store: store, Isolated: cl.Isolated(store), Marker: fmt.Sprintf("m-probe%d-%s", probeN, tag)}
+					req := WriteRequest(reg, key, op.Marker, tsCounter.Add(2))
+					op.Call = cl.Now()
+					res := cl.Propose(store, req)
+					op.Ret = cl.Now()
+					op.Outcome, op.ErrText = classifyWrite(res)
+					op.RequestID = req.GetHeader().GetRequestId()
+					op.Inc = res.Incarnation
+					if op.Outcome == "ok" || op.Outcome == "failed" {
+						op.Resp = res.Resp
+						answered.Add(1)
+					}
+					return op
+				}
+				read := func(store int) Op {
+					op := Op{Client: pc, Kind: "read", Region: reg, Key: key, Store: store, Isolated: cl.Isolated(store)}
+					req := ReadRequest(reg, key)
+					op.Call = cl.Now()
+					res := cl.Read(store, req)
+					op.Ret = cl.Now()
+					op.Outcome, op.ErrText, op.Value, op.Absent = classifyRead(res)
+					op.Inc = res.Incarnation
+					return op
+				}
+				var probeOps []Op
+				w0 := write(l, "old")
+				cl.Isolate(l)
+				probeOps = append(probeOps, w0)
+				nl := -1
+				for dl := time.Now().Add(3 * time.Second); nl < 0 && time.Now().Before(dl); {
+					for i := range cl.Nodes {
+						if i == l {
+							continue
+						}
+						if st, ok := cl.Status(i, reg); ok && st.RaftState == myraft.StateLeader {
+							nl = i
+						}
+					}
+					if nl < 0 {
+						time.Sleep(200 * time.Microsecond)
+					}
+				}
+				if nl >= 0 {
+					r1 := read(nl)
+					w1 := write(nl, "new")
+					r2 := read(l)
+					probeOps = append(probeOps, r1, w1, r2)
+					ev.Note = fmt.Sprintf("region %d key %s: old leader %d (write %s), new leader %d: read %s, write %s; read at old leader %s", reg, key, l, w0.Outcome, nl, r1.Outcome, w1.Outcome, r2.Outcome)
+					tr.Probes = append(tr.Probes, fmt.Sprintf("%s/%s/%s/%s", w0.Outcome, r1.Outcome, w1.Outcome, r2.Outcome))
+				} else {
+					ev.Note = fmt.Sprintf("region %d: store %d isolated, no new leader within the watchdog", reg, l)
+				}
+				opsMu.Lock()
+				for _, op := range probeOps {
+					op.ID = len(tr.Ops)
+					tr.Ops = append(tr.Ops, op)
+				}
+				opsMu.Unlock()
 			case "isolate-store":
 				cl.Isolate(s.Store)
 				ev.Note = fmt.Sprintf("store %d", s.Store)
